@@ -309,6 +309,39 @@ class C12(PipelineCheck):
                 add('type-parameter', 'function-header',
                     'function %s declares type parameters %s, its header in the text reads %r' % (
                         node.name, want, heads[0].strip()[:100]))
+        # parameter ORDER: in the header line of a function the parameter names follow each
+        # other as in the program; likewise the fields of a class in its primary constructor
+        def check_order(owner, names, what):
+            if len(names) < 2 or len(set(names)) != len(names):
+                return
+            nm = re.escape(owner)
+            for ln in lines:
+                m0 = re.search(r'\b%s\b' % nm, ln)
+                if not m0:
+                    continue
+                tail = ln[m0.end():]
+                pos = []
+                for q in names:
+                    # declaration syntax only: `name: T` (Kotlin, Scala), `T name` (Java,
+                    # Groovy) -- a call that passes or names the parameters is not a header
+                    mq = re.search(r'\b%s\b\s*:' % re.escape(q), tail) if lang in (
+                        'kotlin', 'scala') else re.search(
+                            r'[\w>\]?]\s+%s\b\s*[,)=]' % re.escape(q), tail)
+                    pos.append(mq.start() if mq else -1)
+                if min(pos) < 0:
+                    continue
+                obl[what + '-order'] = obl.get(what + '-order', 0) + 1
+                if pos != sorted(pos):
+                    add(what + '-order', 'header',
+                        '%s declares %ss %s, its header reads %r' % (
+                            owner, what, names, ln.strip()[:160]))
+                break
+        for node, path, parents in walk.iter_nodes(program):
+            if isinstance(node, ast.FunctionDeclaration):
+                check_order(node.name, [q.name for q in node.params], 'parameter')
+        for cname, d in ir_classes.items():
+            if d.class_type != ast.ClassDeclaration.INTERFACE:
+                check_order(cname, [fd.name for fd in d.fields], 'field')
         # override / final modifiers of methods, where the language expresses them
         for cname, d in ir_classes.items():
             for fn in d.functions:
